@@ -160,6 +160,10 @@ def _chunk(modname, cfgname, cfg, base_seed, indices, want_samples):
         if out.get("harness_error"):
             agg["harness_errors"].append({"index": i, "seed": seed, "error": out["harness_error"]})
             continue
+        bad_keys = [k for k in out.get("stats", {}) if not isinstance(k, str)]
+        if bad_keys:
+            agg["harness_errors"].append({"index": i, "seed": seed, "error": f"counter keys must be strings: {bad_keys[:3]}"})
+            continue
         agg["stats"].update(out.get("stats", {}))
         d = out.get("digest")
         if d is not None:
